@@ -3,4 +3,4 @@ Require Extraction.
 Require Import ExtrOcamlBasic.
 From Algo.C11 Require Import Model ModelPrec ModelSLR ModelLR1.
 Extraction Language OCaml.
-Extraction "model.ml" parse table_ok infer_labels term_ok lang_upto rm_check ast_of yield postorder prods_of mem_str group_left resolve_conflict levels_disjoint build_slr build_clr build_lalr lm_check.
+Extraction "model.ml" parse table_ok infer_labels term_ok lang_upto rm_check ast_of yield postorder prods_of mem_str group_left resolve_conflict levels_disjoint build_slr build_clr build_lalr lm_check follow_fix_ok augment.
